@@ -77,10 +77,11 @@ def make_case(rng, keys=None, wrap=False, ntopics=None):
             topic = rng.choice(names) if rng.random() < 0.97 else b"nope"
             if kind < 0.4:
                 key = keys.pop() if keys else rand_bytes(rng, 1, rng.choice([1, 2, 3, 8, 15, 16, 17, 40, 300, 8192]))
-                recs.append(T("r", [topic, -1, key, val]))
+                # "no partition given" is ANY negative number (the constructors use -1)
+                recs.append(T("r", [topic, rng.choice([-1, -1, -1, -2, -7, -2147483648]), key, val]))
                 meta.append(("keyed", topic, key, val))
             elif kind < 0.8:
-                recs.append(T("r", [topic, -1, b"", val]))
+                recs.append(T("r", [topic, rng.choice([-1, -1, -1, -2, -7, -2147483648]), b"", val]))
                 meta.append(("keyless", topic, None, val))
             else:
                 n = len(topics.get(topic, [0]))
